@@ -1,19 +1,20 @@
-/-! GENERATED on every run by harness/tables.py from the Python source under the repository's psec/ directory. Do not edit. -/
+/-! GENERATED on every run by harness/tables.py from the Python source under the repository's psec/ directory. Do not edit.
+`none` = the translator did not recognise the shape of this table in the source (the tie is then unavailable). -/
 namespace Psec.Generated.Tables
 
-def tools_ascii_n : List Nat := [48, 49, 50, 51, 52, 53, 54, 55, 56, 57]
-def tools_ascii_an : List Nat := [48, 49, 50, 51, 52, 53, 54, 55, 56, 57, 65, 66, 67, 68, 69, 70, 71, 72, 73, 74, 75, 76, 77, 78, 79, 80, 81, 82, 83, 84, 85, 86, 87, 88, 89, 90, 97, 98, 99, 100, 101, 102, 103, 104, 105, 106, 107, 108, 109, 110, 111, 112, 113, 114, 115, 116, 117, 118, 119, 120, 121, 122]
-def tools_ascii_pa : List Nat := [32, 33, 34, 35, 36, 37, 38, 39, 40, 41, 42, 43, 44, 45, 46, 47, 48, 49, 50, 51, 52, 53, 54, 55, 56, 57, 58, 59, 60, 61, 62, 63, 64, 65, 66, 67, 68, 69, 70, 71, 72, 73, 74, 75, 76, 77, 78, 79, 80, 81, 82, 83, 84, 85, 86, 87, 88, 89, 90, 91, 92, 93, 94, 95, 96, 97, 98, 99, 100, 101, 102, 103, 104, 105, 106, 107, 108, 109, 110, 111, 112, 113, 114, 115, 116, 117, 118, 119, 120, 121, 122, 123, 124, 125, 126]
-def tools_ascii_h : List Nat := [48, 49, 50, 51, 52, 53, 54, 55, 56, 57, 65, 66, 67, 68, 69, 70, 97, 98, 99, 100, 101, 102]
-def header_mac_len : List (List Nat × Nat) := [([65], 4), ([66], 8), ([67], 4), ([68], 16)]
-def header_block_size : List (List Nat × Nat) := [([65], 8), ([66], 8), ([67], 8), ([68], 16)]
-def keyblock_mac_len : List (List Nat × Nat) := [([65], 4), ([66], 8), ([67], 4), ([68], 16)]
-def keyblock_block_size : List (List Nat × Nat) := [([65], 8), ([66], 8), ([67], 8), ([68], 16)]
-def keyblock_algo_max_key_len : List (List Nat × Nat) := [([84], 24), ([68], 24), ([65], 32)]
-def wrap_dispatch : List (List Nat × String) := [([65], "_c_wrap"), ([66], "_b_wrap"), ([67], "_c_wrap"), ([68], "_d_wrap")]
-def unwrap_dispatch : List (List Nat × String) := [([65], "_c_unwrap"), ([66], "_b_unwrap"), ([67], "_c_unwrap"), ([68], "_d_unwrap")]
-def cvv_translate : List (Nat × Nat) := [(97, 48), (98, 49), (99, 50), (100, 51), (101, 52), (102, 53)]
-def pvv_translate : List (Nat × Nat) := [(97, 48), (98, 49), (99, 50), (100, 51), (101, 52), (102, 53)]
-def ibm_maketrans_from : List (List Nat) := [[48, 49, 50, 51, 52, 53, 54, 55, 56, 57, 65, 66, 67, 68, 69, 70], [48, 49, 50, 51, 52, 53, 54, 55, 56, 57, 65, 66, 67, 68, 69, 70]]
+def tools_ascii_n : Option (List Nat) := some [48, 49, 50, 51, 52, 53, 54, 55, 56, 57]
+def tools_ascii_an : Option (List Nat) := some [48, 49, 50, 51, 52, 53, 54, 55, 56, 57, 65, 66, 67, 68, 69, 70, 71, 72, 73, 74, 75, 76, 77, 78, 79, 80, 81, 82, 83, 84, 85, 86, 87, 88, 89, 90, 97, 98, 99, 100, 101, 102, 103, 104, 105, 106, 107, 108, 109, 110, 111, 112, 113, 114, 115, 116, 117, 118, 119, 120, 121, 122]
+def tools_ascii_pa : Option (List Nat) := some [32, 33, 34, 35, 36, 37, 38, 39, 40, 41, 42, 43, 44, 45, 46, 47, 48, 49, 50, 51, 52, 53, 54, 55, 56, 57, 58, 59, 60, 61, 62, 63, 64, 65, 66, 67, 68, 69, 70, 71, 72, 73, 74, 75, 76, 77, 78, 79, 80, 81, 82, 83, 84, 85, 86, 87, 88, 89, 90, 91, 92, 93, 94, 95, 96, 97, 98, 99, 100, 101, 102, 103, 104, 105, 106, 107, 108, 109, 110, 111, 112, 113, 114, 115, 116, 117, 118, 119, 120, 121, 122, 123, 124, 125, 126]
+def tools_ascii_h : Option (List Nat) := some [48, 49, 50, 51, 52, 53, 54, 55, 56, 57, 65, 66, 67, 68, 69, 70, 97, 98, 99, 100, 101, 102]
+def header_mac_len : Option (List (List Nat × Nat)) := some [([65], 4), ([66], 8), ([67], 4), ([68], 16)]
+def header_block_size : Option (List (List Nat × Nat)) := some [([65], 8), ([66], 8), ([67], 8), ([68], 16)]
+def keyblock_mac_len : Option (List (List Nat × Nat)) := some [([65], 4), ([66], 8), ([67], 4), ([68], 16)]
+def keyblock_block_size : Option (List (List Nat × Nat)) := some [([65], 8), ([66], 8), ([67], 8), ([68], 16)]
+def keyblock_algo_max_key_len : Option (List (List Nat × Nat)) := some [([84], 24), ([68], 24), ([65], 32)]
+def wrap_dispatch : Option (List (List Nat × String)) := some [([65], "_c_wrap"), ([66], "_b_wrap"), ([67], "_c_wrap"), ([68], "_d_wrap")]
+def unwrap_dispatch : Option (List (List Nat × String)) := some [([65], "_c_unwrap"), ([66], "_b_unwrap"), ([67], "_c_unwrap"), ([68], "_d_unwrap")]
+def cvv_translate : Option (List (Nat × Nat)) := some [(97, 48), (98, 49), (99, 50), (100, 51), (101, 52), (102, 53)]
+def pvv_translate : Option (List (Nat × Nat)) := some [(97, 48), (98, 49), (99, 50), (100, 51), (101, 52), (102, 53)]
+def ibm_maketrans_from : Option (List (List Nat)) := some [[48, 49, 50, 51, 52, 53, 54, 55, 56, 57, 65, 66, 67, 68, 69, 70], [48, 49, 50, 51, 52, 53, 54, 55, 56, 57, 65, 66, 67, 68, 69, 70]]
 
 end Psec.Generated.Tables
